@@ -2,6 +2,75 @@
 use crate::execgen::*;
 use crate::util::*;
 use crate::Emitter;
+use vm_core::{code_blocks::CodeBlock, Felt, Operation, Program};
+
+/// Raw MAST programs (no assembler): spans whose groups and batches are filled in every way,
+/// explicit NOOPs included, alone and under JOIN / SPLIT / LOOP.
+fn raw_programs(em: &mut Emitter, rng: &mut Rng, thorough: bool) -> u64 {
+    let mut n = 0u64;
+    let mut run = |em: &mut Emitter, ops: Vec<Operation>, shape: u64| {
+        let span = CodeBlock::new_span(ops.clone());
+        let root = match shape % 4 {
+            0 => span,
+            1 => CodeBlock::new_join([span, CodeBlock::new_span(vec![Operation::Noop, Operation::Noop])]),
+            2 => CodeBlock::new_join([CodeBlock::new_span(vec![Operation::Push(Felt::new(1))]), CodeBlock::new_split(span, CodeBlock::new_span(vec![Operation::Noop]))]),
+            _ => CodeBlock::new_join([CodeBlock::new_span(vec![Operation::Push(Felt::new(0)), Operation::Push(Felt::new(1))]), CodeBlock::new_loop(span)]),
+        };
+        let p = Program::new(root);
+        exec_case(em, &p, &[9, 8, 7], &[], None, "ops,sys");
+    };
+    // depth-neutral filler operations
+    let filler = [Operation::Swap, Operation::Noop, Operation::Incr, Operation::Neg, Operation::MovUp2, Operation::SwapW];
+    // (a) k operations followed by a tail of NOOPs, around group (9) and batch (72) boundaries
+    for k in [0usize, 1, 2, 7, 8, 9, 10, 17, 18, 19, 63, 64, 70, 71, 72, 73, 80] {
+        for tail in 0..=(if thorough { 20 } else { 10 }) {
+            if k + tail == 0 {
+                continue;
+            }
+            for variant in 0..3u64 {
+                let mut ops: Vec<Operation> = (0..k)
+                    .map(|i| match variant {
+                        0 => Operation::Swap,
+                        1 => if i % 5 == 4 { Operation::Noop } else { Operation::Incr },
+                        _ => *rng.pick(&filler),
+                    })
+                    .collect();
+                if variant == 1 && k > 0 {
+                    // a PUSH / DROP pair so that immediates take part
+                    ops[k - 1] = Operation::Noop;
+                    if k >= 3 {
+                        ops[k - 3] = Operation::Push(Felt::new(5));
+                        ops[k - 2] = Operation::Drop;
+                    }
+                }
+                ops.extend(std::iter::repeat(Operation::Noop).take(tail));
+                run(em, ops, variant + k as u64);
+                n += 1;
+            }
+        }
+    }
+    // (b) random mixes, NOOP-heavy
+    for i in 0..(if thorough { 3000 } else { 300 }) {
+        let len = 1 + rng.below(if i % 3 == 0 { 100 } else { 24 }) as usize;
+        let ops: Vec<Operation> = (0..len)
+            .map(|_| match rng.below(10) {
+                0..=3 => Operation::Noop,
+                4 => Operation::Pad,
+                5 => Operation::Drop,
+                6 => Operation::Push(Felt::new(rng.below(3))),
+                _ => *rng.pick(&filler),
+            })
+            .collect();
+        // keep the loop variant terminating: the body must leave 0 on top
+        let mut ops = ops;
+        if i % 4 == 3 {
+            ops.push(Operation::Push(Felt::new(0)));
+        }
+        run(em, ops, i as u64);
+        n += 1;
+    }
+    n
+}
 
 pub fn generate(em: &mut Emitter, seed: u64, thorough: bool) {
     let mut rng = Rng::new(seed ^ 0xC13);
@@ -10,4 +79,6 @@ pub fn generate(em: &mut Emitter, seed: u64, thorough: bool) {
     em.stat("programs_ok", ok);
     em.stat("programs_err", err);
     em.stat("assembly_errors", asm);
+    let raw = raw_programs(em, &mut rng, thorough);
+    em.stat("raw_mast_programs", raw);
 }
